@@ -250,7 +250,7 @@ void h_delreport(void)
       V_ASSERT(dels[c][dn].used == 0 && concurrencyused[c] == cu0 - 1 && g_closedjob == j, "C04: a reported delivery frees exactly its slot");
     }
   }
-  V_ASSERT(dline[c].len == 0 || g_spawndied || g_noread || len0 == 0, "C18: supporting: the report buffer is reset after each report");
+  V_ASSERT(dline[c].len == 0 || g_spawndied || g_noread || len0 == 0, "C18,C03,C04: the report buffer is reset after each report, accepted or not (bytes of a rejected report are never parsed as part of the next one)");
   V_COVER(g_marked && g_bounced); V_COVER(g_marked && !g_bounced); V_COVER(!g_marked && g_closedjob >= 0);
 }
 #endif
@@ -730,7 +730,7 @@ int stralloc_append(stralloc *sa, char *p)
   V_ASSERT(!g_needs_close, "C18: a complete report is processed before the next byte is stored");
   V_ASSERT(0 <= g_app && g_app < g_r && *p == delbuf[g_app], "C18: every byte of the report stream is stored unchanged and in order");
   V_ASSERT(sa->len <= REPORTMAX, "C18: oversized reports are truncated");
-  if (g_after) { V_ASSERT(sa->len == 0, "C18: after a complete report - accepted or not - the next one starts in an empty buffer"); g_after = 0; }
+  if (g_after) { V_ASSERT(sa->len == 0, "C18,C03,C04: after a complete report - accepted or not - the next one starts in an empty buffer"); g_after = 0; }
   if (sa->len == REPORTMAX) g_trunc = 1;
   sa->s[sa->len] = *p; ++sa->len; ++g_app;
   if (!*p && sa->len > 1) {   /* a report is complete: delivery number byte, at least one more byte, NUL */
@@ -756,7 +756,7 @@ void h_delframe(void)
     V_ASSERT(g_app == g_r, "C18: supporting: every byte read is consumed");
     V_ASSERT(dline[c].len <= REPORTMAX, "C18: oversized reports are truncated");
     V_ASSERT(!g_needs_close, "C18: every complete report naming a used slot frees that slot");
-    V_ASSERT(!g_after || dline[c].len == 0, "C18: after a complete report - accepted or not - the next one starts in an empty buffer");
+    V_ASSERT(!g_after || dline[c].len == 0, "C18,C03,C04: after a complete report - accepted or not - the next one starts in an empty buffer");
     n = 0; for (k = 0; k < NSLOT; ++k) if (dels[c][k].used) ++n;
     V_ASSERT((int)concurrencyused[c] == n, "C04: the count of outstanding deliveries equals the number of slots in use, whatever bytes arrive on the report channel");
   }
